@@ -123,9 +123,14 @@ def _stress(args):
             ref = type(e).__name__
         res = [None] * nthreads
         barrier = threading.Barrier(nthreads)
+        lalr = kw.get('parser') == 'lalr'
         def w(i):
             barrier.wait()
             try:
+                if lalr and i % 2 == 1:
+                    # another kind of call on the same instance at the same time: scan() (its exploratory parses must not disturb a concurrent parse())
+                    for _ in range(3):
+                        list(p.scan(text + ' ' + text))
                 res[i] = repr(p.parse(text))
             except UnexpectedInput as e:
                 res[i] = type(e).__name__
